@@ -25,6 +25,7 @@ BOUNDS = {
     "quick": "m,n in {2..4}, input rank in {1, R, min}, R=1..min, oversample {0,1,2,5,10}, rand_qsvd n_iter 0..3, pass_eff_qsvd n_passes 2..5, seeds 0..3",
     "thorough": "m,n in {2..6}, all input ranks, seeds 0..15",
 }
+THOROUGH_STREAMS = 3
 WALL_BUDGET = {"quick": 600, "thorough": 3400}
 ASSUMPTIONS = ["inputs have prescribed, well separated singular values {4,2,1,1/2,1/4}; sigma_i(A) from the generator and cross-checked with the complex-adjoint oracle"]
 VALS = [4.0, 2.0, 1.0, 0.5, 0.25, 0.125]
